@@ -131,6 +131,10 @@ def chunked_inputs(d, kind):
         for v in exts + [size - 1, size + 1, size + 9]:
             yield "iff-chunk-size@%d=%d" % (p, v), put(d, p + 4, w, v, big)
         yield "iff-chunk-id@%d" % p, d[:p] + b"\xff\xfe\x00\x01" + d[p + 4:]
+        # the container claims (nearly) everything addressable AND this chunk is huge: offsets add up beyond any file position
+        for rootv in (2 ** (8 * w) - 8, 2 ** (8 * w - 1)):
+            for v in (2 ** (8 * w - 1), 2 ** (8 * w - 1) - 1, 2 ** (8 * w) - 2, 2 ** 63 if w == 8 else 2 ** 31):
+                yield "iff-root+chunk-size@%d=%d/%d" % (p, rootv, v), put(put(d, 4, w, rootv, big), p + 4, w, v, big)
         p += hs + size + (size & 1)
         n += 1
 
@@ -200,6 +204,39 @@ def asf_inputs(d):
         for off2 in range(24, min(size, 24 + 48), 2):
             for v in (0, 0xFFFF, 0x7FFF, 7):
                 yield "asf-object-field@%d+%d" % (p, off2), put(d, p + off2, 2, v, False)
+        if size < 24:
+            break
+        p += size
+        n += 1
+
+
+def asf_guid_confusion(d):
+    """every child object of the header (and of the header extension) relabelled with every well-known object GUID"""
+    if d[:16] != W.ASF_HDR or len(d) < 30:
+        return
+    known = [("header", W.ASF_HDR), ("cd", W.G_CD), ("ecd", W.G_ECD), ("hext", W.G_HEXT), ("pad", W.G_PAD), ("meta", W.G_META), ("metalib", W.G_METALIB),
+             ("fileprops", bytes.fromhex("A1DCAB8C47A9CF118EE400C00C205365")), ("streamprops", bytes.fromhex("9107DCB7B7A9CF118EE600C00C205365")),
+             ("codeclist", bytes.fromhex("4052D1861D31D011A3A400A0C90348F6"))]
+    size_total = struct.unpack("<Q", d[16:24])[0]
+    p = 30
+    n = 0
+    while p + 24 <= min(len(d), size_total) and n < 12:
+        size = struct.unpack("<Q", d[p + 16:p + 24])[0]
+        for lab, g in known:
+            if d[p:p + 16] != g:
+                yield "asf-guid@%d=%s" % (p, lab), d[:p] + g + d[p + 16:]
+        if d[p:p + 16] == W.G_HEXT and size >= 46:
+            q = p + 46
+            m = 0
+            while q + 24 <= p + size and m < 8:
+                s2 = struct.unpack("<Q", d[q + 16:q + 24])[0]
+                for lab, g in known:
+                    if d[q:q + 16] != g:
+                        yield "asf-ext-guid@%d=%s" % (q, lab), d[:q] + g + d[q + 16:]
+                if s2 < 24:
+                    break
+                q += s2
+                m += 1
         if size < 24:
             break
         p += size
@@ -355,6 +392,7 @@ def structured(name, d):
     if fam == "asf":
         gens.append(asf_inputs(d))
         gens.append(asf_long_names(d))
+        gens.append(asf_guid_confusion(d))
     if fam == "ape" or b"APETAGEX" in d[-400:]:
         gens.append(ape_inputs(d))
         gens.append(ape_at_start_inputs(d))
